@@ -52,9 +52,9 @@ CLAIMS = {
         text='Kernel only: proof, for every operand tag combination and every operand value (all 2^64 bit patterns per operand), that the BinaryExpression / UnaryExpression / LiteralExpression branches of eval follow the '
              'documented semantics: result tag float if any float, else long if any long, else int; + - * on the promoted operands; / always float with a located error on a zero divisor; integer % with a located error on zero; '
              'comparisons on the promoted pair; && || ! on boolean/bit; & | ^ ~ on bits and element-wise on equal-length bit arrays (ghost element index, loop invariants) with a located error on a length mismatch; unary minus keeps the tag; '
-             'literal tag follows the literal type, string/char payloads are the quoted text. Control flow (unit OBJM, regions exec_block / exec_for / exec_while): once a nested statement has returned, nothing more of the block or loop runs - no further statement, increment or condition (ghost count of what runs while a return is pending). Arrays (unit ASTORE, the whole element-read and element-store branches of eval): a[i] with any int index is a located Runtime error outside the array and otherwise the element with the tag of the element type; a[i] = v likewise refuses outside the array and otherwise writes the variable once, keeps the length and every other element (ghost element) and stores the converted value. Casts (unit ASTORE, the whole CastExpression branch): the result has the target type; (int) of a float truncates toward zero, (float) of int / long / bit is exact, (bit) of a non-zero value is 1, (long) widens; strings, objects, arrays and void cannot be cast (located Runtime error) and the documented numeric casts never fail. Store site (unit SCOPE, clause assign.int_stored_in_a_long_variable_is_widened): an int assigned to a variable that holds a long must leave a long there - this obligation FAILS on this code base and is a KNOWN-FINDING (the variable keeps the int tag and the next `y + 1` wraps at 32 bits; native replay).',
+             'literal tag follows the literal type, string/char payloads are the quoted text. Control flow (unit OBJM, regions exec_block / exec_for / exec_while): once a nested statement has returned, nothing more of the block or loop runs - no further statement, increment or condition (ghost count of what runs while a return is pending). Arrays (unit ASTORE, the whole element-read and element-store branches of eval): a[i] with any int index is a located Runtime error outside the array and otherwise the element with the tag of the element type; a[i] = v likewise refuses outside the array and otherwise writes the variable once, keeps the length and every other element (ghost element) and stores the converted value. Casts (unit ASTORE, the whole CastExpression branch): the result has the target type; (int) of a float truncates toward zero, (float) of int / long / bit is exact, (bit) of a non-zero value is 1, (long) widens; strings, objects, arrays and void cannot be cast (located Runtime error) and the documented numeric casts never fail. Postfix (unit ASTORE, region eval_postfix): x++ / x-- yield the old value and write the variable once with the value one larger / smaller (int, long, float; values not at the end of the range). Store site (unit SCOPE, clause assign.int_stored_in_a_long_variable_is_widened): an int assigned to a variable that holds a long must leave a long there - this obligation FAILS on this code base and is a KNOWN-FINDING (the variable keeps the int tag and the next `y + 1` wraps at 32 bits; native replay).',
         note=TB + 'Regions are addressed structurally in the real eval; operand evaluation (recursive eval) is an assumed stub. Double arithmetic and the VALUE of integer * / % are uninterpreted functions (code and specification are built '
-             'from the same symbols; bitwise equality); 32/64-bit + and - are specified modulo 2^n. NOT covered: the other store sites that share the known finding (declaration with initialiser, member assignment, parameter binding, return values, field initialisers), postfix ++/--, string concatenation/formatting (valueToString is opaque), control flow, calls, '
+             'from the same symbols; bitwise equality); 32/64-bit + and - are specified modulo 2^n. NOT covered: the other store sites that share the known finding (declaration with initialiser, member assignment, parameter binding, return values, field initialisers), string concatenation/formatting (valueToString is opaque), control flow, calls, '
              'scoping, arrays with value semantics, echo - i.e. everything the property says about whole programs beyond these three branches.',
         ref='DESIGN.md §4 C07'),
     'C08': dict(
